@@ -28,6 +28,7 @@ import (
 	"github.com/lni/dragonboat/v4/internal/server"
 	"github.com/lni/dragonboat/v4/internal/settings"
 	"github.com/lni/dragonboat/v4/internal/tan"
+	"github.com/lni/dragonboat/v4/internal/transport"
 	"github.com/lni/dragonboat/v4/internal/verifkit"
 	"github.com/lni/dragonboat/v4/internal/verifkit/memlogdb"
 	"github.com/lni/dragonboat/v4/internal/vfs"
@@ -189,6 +190,9 @@ func (c *nxCluster) openStore(h *nxHost) {
 
 // durable state of a host, read through the public ILogDB API
 func nxState(h *nxHost) pb.State {
+	if h.db == nil {
+		return pb.State{} // a joiner that has not been started yet
+	}
 	ss, _ := h.db.GetSnapshot(nxShard, h.id)
 	rs, err := h.db.ReadRaftState(nxShard, h.id, ss.Index)
 	if err != nil {
@@ -198,6 +202,9 @@ func nxState(h *nxHost) pb.State {
 }
 
 func nxMaxIndex(h *nxHost) uint64 {
+	if h.db == nil {
+		return 0
+	}
 	ss, _ := h.db.GetSnapshot(nxShard, h.id)
 	rs, err := h.db.ReadRaftState(nxShard, h.id, ss.Index)
 	if err != nil || rs.EntryCount == 0 {
@@ -240,7 +247,74 @@ type nxHost struct {
 	maxTermSent  uint64
 	lastUpdIdx   uint64
 	seenUpdates  map[uint64]string // index -> cmd of user updates in this incarnation
+	// on-disk state machine: what Sync / RecoverFromSnapshot made durable
+	disk nxDisk
+	// receiving side of streamed snapshots (real transport.Chunk on the host's fs)
+	recv     *transport.Chunk
+	received []pb.Message           // InstallSnapshot messages built by recv during one delivery
+	sinkWait map[uint64]func() bool // stream sinks handed out and not yet ended, by target replica
+	sinkBuf  map[uint64][]pb.Chunk  // chunks the streaming job put on the wire
 }
+
+type nxDisk struct{ val, version, lastIdx uint64 }
+
+// nxDiskSM is the IOnDiskStateMachine variant of the instrumented register:
+// the volatile state is the host's nxSM (so that every monitor keeps reading
+// h.usm), Sync and RecoverFromSnapshot copy it to h.disk, Open reads it back.
+type nxDiskSM struct {
+	h *nxHost
+	s *nxSM
+}
+
+func (d *nxDiskSM) Open(<-chan struct{}) (uint64, error) {
+	d.s.val, d.s.version, d.s.lastIdx = d.h.disk.val, d.h.disk.version, d.h.disk.lastIdx
+	// C11: nothing at or below the index returned here may be handed to Update
+	d.h.recoveredIdx = d.h.disk.lastIdx
+	d.h.lastUpdIdx = d.h.disk.lastIdx
+	return d.h.disk.lastIdx, nil
+}
+func (d *nxDiskSM) Update(es []sm.Entry) ([]sm.Entry, error) {
+	for i := range es {
+		r, err := d.s.Update(es[i])
+		if err != nil {
+			return nil, err
+		}
+		es[i].Result = r
+	}
+	return es, nil
+}
+func (d *nxDiskSM) Lookup(q interface{}) (interface{}, error) { return d.s.Lookup(q) }
+func (d *nxDiskSM) Sync() error {
+	if d.s.closed {
+		d.h.c.fail("C11: Sync called after Close on replica %d", d.h.id)
+	}
+	d.h.disk = nxDisk{d.s.val, d.s.version, d.s.lastIdx}
+	return nil
+}
+func (d *nxDiskSM) PrepareSnapshot() (interface{}, error) {
+	if d.s.closed {
+		d.h.c.fail("C11: PrepareSnapshot called after Close on replica %d", d.h.id)
+	}
+	return nxDisk{d.s.val, d.s.version, d.s.lastIdx}, nil
+}
+func (d *nxDiskSM) SaveSnapshot(ctx interface{}, w io.Writer, _ <-chan struct{}) error {
+	st := ctx.(nxDisk)
+	d.h.c.snapshotsSaved++
+	var b [24]byte
+	binary.BigEndian.PutUint64(b[:], st.val)
+	binary.BigEndian.PutUint64(b[8:], st.version)
+	binary.BigEndian.PutUint64(b[16:], st.lastIdx)
+	_, err := w.Write(b[:])
+	return err
+}
+func (d *nxDiskSM) RecoverFromSnapshot(r io.Reader, stopc <-chan struct{}) error {
+	if err := d.s.RecoverFromSnapshot(r, nil, stopc); err != nil {
+		return err
+	}
+	d.h.disk = nxDisk{d.s.val, d.s.version, d.s.lastIdx}
+	return nil
+}
+func (d *nxDiskSM) Close() error { return d.s.Close() }
 
 func (h *nxHost) hook(name string) {
 	h.hookN++
@@ -304,11 +378,21 @@ type nxCfg struct {
 	// the node request snapshots by itself
 	RealPool        bool
 	SnapshotEntries uint64
+	// OnDisk: the replicas run an IOnDiskStateMachine (state persisted by Sync /
+	// RecoverFromSnapshot, Open returns the persisted index after a restart) and a
+	// lagging replica is caught up by a STREAMED snapshot: the InstallSnapshot of
+	// raft becomes a stream task (as in NodeHost.sendMessage), the real
+	// snapshotter.Stream / rsm.ChunkWriter feed a real transport streaming job and
+	// the chunks are reassembled by the target's real transport.Chunk
+	OnDisk bool
+	// RequireCaughtUp: at the end of the scenario every running replica has
+	// applied everything that is committed anywhere
+	RequireCaughtUp bool
 	// Compaction > 0 sets config.CompactionOverhead (default 1000 = the log is
 	// never compacted): with a small value a lagging replica must be caught up by
 	// an InstallSnapshot message
 	Compaction uint64
-	HoldJobs        int // deviation budget: hold back a scheduled snapshot job
+	HoldJobs   int // deviation budget: hold back a scheduled snapshot job
 	// RealTime: raft's tick counters are not normalised; Tick events advance
 	// real election/heartbeat timers (deterministic, distinct election timeouts)
 	RealTime bool
@@ -336,6 +420,7 @@ func nxMsgSum(m pb.Message) uint64 {
 }
 
 type nxCluster struct {
+	streams     map[string]*nxStream // streamed images in flight or delivered, by from>to@index
 	cfg         *nxCfg
 	hosts       []*nxHost
 	byID        map[uint64]*nxHost
@@ -501,12 +586,20 @@ func (c *nxCluster) startHost(h *nxHost) {
 	}
 	usm := h.usm
 	create := func(shardID uint64, replicaID uint64, done <-chan struct{}) rsm.IManagedStateMachine {
+		if c.cfg.OnDisk {
+			return rsm.NewNativeSM(cfg, rsm.NewOnDiskStateMachine(&nxDiskSM{h: h, s: usm}), done)
+		}
 		return rsm.NewNativeSM(cfg, rsm.NewInMemStateMachine(usm), done)
+	}
+	if c.cfg.OnDisk {
+		c.initStreaming(h, snapdir)
 	}
 	nr := registry.NewNodeRegistry(settings.Soft.StreamConnections, nil)
 	nhConfig := config.NodeHostConfig{RTTMillisecond: 1, NotifyCommit: c.cfg.NotifyCommit}
-	n, err := newNode(peers, initial, cfg, nhConfig, create, ss, lr, h.pipe, nil, nil,
-		func(uint64, uint64, bool) {}, func(m pb.Message) { c.onSend(h, m) }, nr, c.pool, ldb, nil,
+	n, err := newNode(peers, initial, cfg, nhConfig, create, ss, lr, h.pipe, nil,
+		func(shardID uint64, replicaID uint64) *transport.Sink { return c.newSink(h, replicaID) },
+		func(shardID uint64, replicaID uint64, failed bool) { c.snapshotStatus(h, replicaID, failed) },
+		func(m pb.Message) { c.onSend(h, m) }, nr, c.pool, ldb, nil,
 		newSysEventListener(nil, nil))
 	if err != nil {
 		panic(err)
@@ -621,6 +714,15 @@ func (c *nxCluster) snapshotWorker(h *nxHost) {
 			}
 		}
 	}
+	if h.pipe.stream {
+		h.pipe.stream = false
+		if req, sinkFn, ok := n.ss.getStreamReq(); ok {
+			if err := w.handle(job{task: req, node: n, sink: sinkFn, instanceID: n.instanceID, shardID: nxShard}); err != nil {
+				c.fail("replica %d: stream job error %v", h.id, err)
+			}
+			c.streamEnded(h, req.ReplicaID)
+		}
+	}
 }
 
 // settle runs every ready worker other than the held-back ones until quiet.
@@ -635,7 +737,7 @@ func (c *nxCluster) settle(h *nxHost) {
 				c.realCommit(h)
 			case h.pipe.apply && !c.lazy[h.id]:
 				c.realApply(h)
-			case h.pipe.save || h.pipe.recover || h.poolCCI:
+			case h.pipe.save || h.pipe.recover || h.pipe.stream || h.poolCCI:
 				c.poolLoop(h)
 			case c.jobScheduled(h) && !h.ps.held:
 				c.poolRun(h)
@@ -653,7 +755,7 @@ func (c *nxCluster) settle(h *nxHost) {
 			c.commitWorker(h)
 		case h.pipe.apply && !c.lazy[h.id]:
 			c.applyWorker(h)
-		case h.pipe.recover || h.pipe.save:
+		case h.pipe.recover || h.pipe.save || h.pipe.stream:
 			c.snapshotWorker(h)
 		case h.pipe.step:
 			c.stepWorker(h)
@@ -671,6 +773,11 @@ func (c *nxCluster) settle(h *nxHost) {
 // partially sent batch is covered by crash-after-step plus message drops.
 func (c *nxCluster) onSend(h *nxHost, m pb.Message) {
 	c.checkSend(h, m)
+	if c.cfg.OnDisk && m.Type == pb.InstallSnapshot && !m.Snapshot.Witness {
+		// NodeHost.sendMessage: an on-disk state machine streams its snapshot
+		h.node.pushStreamSnapshotRequest(m.ShardID, m.To)
+		return
+	}
 	// kept by value (entry slices still alias raft's in-memory log, as in the
 	// transport's send queue); serialised when delivered, see take
 	h.outbox = append(h.outbox, m)
@@ -735,9 +842,17 @@ func (c *nxCluster) deliver(m pb.Message, crashAt int) {
 		return
 	}
 	if m.Type == pb.InstallSnapshot && !m.Snapshot.Witness {
+		if c.cfg.OnDisk {
+			c.receiveStream(h, m, crashAt)
+			return
+		}
 		if !c.transferSnapshot(h, &m) {
 			return
 		}
+	}
+	if m.Type == pb.SnapshotReceived {
+		// NodeHost.HandleMessageBatch: the target confirmed the image
+		m = pb.Message{Type: pb.SnapshotStatus, From: m.From, Reject: false}
 	}
 	c.guarded(h, crashAt, func() {
 		if added, stopped := h.node.mq.Add(m); !added || stopped {
@@ -917,6 +1032,9 @@ func (c *nxCluster) scriptEvent(it string) uint32 {
 		return nxev(nxPartition, a, 0)
 	case 'E':
 		return nxev(nxHeal, 0, 0)
+	case 'U':
+		fmt.Sscanf(it[1:], "%d", &a)
+		return nxev(nxReleaseJob, a, 0)
 	case 'z':
 		fmt.Sscanf(it[1:], "%d", &a)
 		return nxev(nxHoldApply, a, 0)
